@@ -3,7 +3,9 @@ package props
 import (
 	"fmt"
 	"math/big"
+	"os"
 	"sort"
+	"strconv"
 	"testing"
 
 	"verif/eng"
@@ -125,9 +127,15 @@ func rapidCheck(t *testing.T, name string, total int, prop func(*rapid.T)) {
 	rapid.Check(t, prop)
 }
 
+// tierN returns the case count of the current tier; thorough counts are multiplied by
+// VERIF_THOROUGH_SCALE (default 4) so that the depth of the thorough tier can be chosen per run.
 func tierN(quick, thorough int) int {
 	if rec.Thorough() {
-		return thorough
+		scale := 4
+		if v, err := strconv.Atoi(os.Getenv("VERIF_THOROUGH_SCALE")); err == nil && v > 0 {
+			scale = v
+		}
+		return thorough * scale
 	}
 	return quick
 }
